@@ -136,19 +136,27 @@ fn finite_or_overflow(result: Result<Variant, VariantError>) -> Result<Variant, 
 // TODO implement standard operators with panics, let the linter guarantee the type compatibility
 
 impl Variant {
+    /// The order of two values as the relational operators of the language see it.
+    /// Numbers are compared exactly (the tolerance of [ApproximateCmp] is only for
+    /// the equality of whole [Variant] values); a SINGLE against a DOUBLE is compared
+    /// in single precision, so that `9.1# = 9.1` holds.
     pub fn try_cmp(&self, other: &Self) -> Result<Ordering, VariantError> {
+        fn exact<T: PartialOrd>(left: T, right: T) -> Result<Ordering, VariantError> {
+            Ok(left.partial_cmp(&right).unwrap_or(Ordering::Equal))
+        }
+
         match self {
             Self::VSingle(f_left) => match other {
-                Self::VSingle(f_right) => Ok(ApproximateCmp::cmp(f_left, f_right)),
-                Self::VDouble(d_right) => Ok(ApproximateCmp::cmp(&(*f_left as f64), d_right)),
-                Self::VInteger(i_right) => Ok(ApproximateCmp::cmp(f_left, &(*i_right as f32))),
-                Self::VLong(l_right) => Ok(ApproximateCmp::cmp(f_left, &(*l_right as f32))),
+                Self::VSingle(f_right) => exact(*f_left, *f_right),
+                Self::VDouble(d_right) => exact(*f_left, *d_right as f32),
+                Self::VInteger(i_right) => exact(*f_left as f64, *i_right as f64),
+                Self::VLong(l_right) => exact(*f_left as f64, *l_right as f64),
                 _ => other.try_cmp(self).map(|x| x.reverse()),
             },
             Self::VDouble(d_left) => match other {
-                Self::VDouble(d_right) => Ok(ApproximateCmp::cmp(d_left, d_right)),
-                Self::VInteger(i_right) => Ok(ApproximateCmp::cmp(d_left, &(*i_right as f64))),
-                Self::VLong(l_right) => Ok(ApproximateCmp::cmp(d_left, &(*l_right as f64))),
+                Self::VDouble(d_right) => exact(*d_left, *d_right),
+                Self::VInteger(i_right) => exact(*d_left, *i_right as f64),
+                Self::VLong(l_right) => exact(*d_left, *l_right as f64),
                 _ => other.try_cmp(self).map(|x| x.reverse()),
             },
             Self::VString(s_left) => match other {
